@@ -534,6 +534,17 @@ pid_t __wrap_fork(void) {
   return pid;
 }
 
+// std::chrono clocks used by repository code (vsim/clock_shim.hh): the same simulated clock
+unsigned long long vsim_sim_clock_us(void) {
+  if (!g.armed) {
+    struct timespec ts;
+    clock_gettime(CLOCK_MONOTONIC, &ts);
+    return (unsigned long long)ts.tv_sec * 1000000ULL + (unsigned long long)ts.tv_nsec / 1000;
+  }
+  g.clock += 1;
+  return g.clock;
+}
+
 int __wrap_gettimeofday(struct timeval* tv, void* tz) {
   if (!g.armed) return __real_gettimeofday(tv, tz);
   g.clock += 1;
